@@ -162,6 +162,15 @@ func build(o opts) *program {
 		fld(18, "f18", idl.MapOf(str, idl.EnumT(color)), idl.VM([2]*idl.Value{idl.VS("k"), idl.VE(color, color.Values[0])}, [2]*idl.Value{idl.VS("l"), idl.VC(bcol)})),
 	}}
 	if o.viaLocalTypedef {
+		// typedefs that carry the very name of the enum they lead to, in two files (a chain of equal names)
+		bSame := &idl.Typedef{Name: "Color", Type: idl.EnumT(color)}
+		b.Add(bSame)
+		mSame := &idl.Typedef{Name: "Color", Type: idl.TypedefT(bSame)}
+		m.Add(mSame)
+		ms.Fields = append(ms.Fields,
+			fld(24, "f24", idl.TypedefT(mSame), &idl.Value{K: idl.VEnumRef, Enum: color, EV: color.Values[1], Via: mSame}),
+			fld(25, "f25", idl.TypedefT(bSame), &idl.Value{K: idl.VEnumRef, Enum: color, EV: color.Values[0], Via: bSame}),
+			fld(26, "f26", idl.EnumT(color), &idl.Value{K: idl.VEnumRef, Enum: color, EV: color.Values[1], Via: mSame}))
 		m.Add(lCol)
 		ms.Fields = append(ms.Fields,
 			fld(21, "f21", idl.TypedefT(lCol), &idl.Value{K: idl.VEnumRef, Enum: color, EV: color.Values[1], Via: lCol}),
@@ -172,8 +181,10 @@ func build(o opts) *program {
 		ms.Fields = append(ms.Fields, fld(19, "f19", idl.StructT(c1s), nil), fld(20, "f20", idl.StructT(c2s), nil))
 	}
 	lc := &idl.Const{Name: "LC", Type: i32, Value: idl.VI(5)}
+	lstr := &idl.Const{Name: "LSTR", Type: str, Value: idl.VS("key")}
+	ms.Fields = append(ms.Fields, fld(27, "f27", idl.ListOf(idl.StructT(bs)), idl.VL(idl.VM([2]*idl.Value{idl.VS("c"), idl.VC(acol)}))))
 	consts := []*idl.Const{
-		lc,
+		lc, lstr,
 		{Name: "K1", Type: i32, Value: idl.VC(lc)},
 		{Name: "K2", Type: i32, Value: idl.VC(ac)},
 		{Name: "K3", Type: idl.EnumT(color), Value: idl.VC(acol)},
@@ -182,6 +193,10 @@ func build(o opts) *program {
 		{Name: "K6", Type: idl.EnumT(color), Value: idl.VE(color, color.Values[1])},
 		{Name: "K7", Type: idl.ListOf(idl.EnumT(color)), Value: idl.VL(idl.VE(color, color.Values[0]), idl.VC(acol), idl.VI(3))},
 		{Name: "K8", Type: idl.StructT(bs), Value: idl.VM([2]*idl.Value{idl.VS("c"), idl.VE(color, color.Values[1])})},
+		// identifiers inside struct / map literals that are themselves list elements
+		{Name: "K9", Type: idl.ListOf(idl.StructT(bs)), Value: idl.VL(idl.VM([2]*idl.Value{idl.VS("c"), idl.VE(color, color.Values[1])}), idl.VM([2]*idl.Value{idl.VS("c"), idl.VC(acol)}, [2]*idl.Value{idl.VS("f"), idl.VM([2]*idl.Value{idl.VS("v"), idl.VC(ac)})}))},
+		{Name: "K10", Type: idl.ListOf(idl.MapOf(str, idl.EnumT(color))), Value: idl.VL(idl.VM([2]*idl.Value{idl.VS("k"), idl.VC(bcol)}), idl.VM([2]*idl.Value{idl.VC(lstr), idl.VE(color, color.Values[0])}))},
+		{Name: "K11", Type: idl.SetOf(idl.ListOf(idl.MapOf(idl.EnumT(l), i32))), Value: idl.VL(idl.VL(idl.VM([2]*idl.Value{idl.VE(l, l.Values[1]), idl.VC(lc)})))},
 	}
 	if vk != nil {
 		consts = append(consts, &idl.Const{Name: "KV1", Type: i32, Value: idl.VC(vk)}, &idl.Const{Name: "KV2", Type: idl.MapOf(str, i32), Value: idl.VM([2]*idl.Value{idl.VS("a"), idl.VC(vk)})})
